@@ -15,6 +15,13 @@
 //                             new blocks routinely share a bucket with older live ones
 //   mode private nooverloads  the same with MemoryLeakWarningPlugin::turnOffNewDeleteOverloads()
 //   mode global               the global detector with real operator new / new[] / cpputest_malloc
+//   mode runner               the whole run is made by the real CommandLineTestRunner::RunAllTests(2, {"h_c07", "-v"}) on
+//                             the current registry: the runner constructs and installs the leak plugin itself (after the
+//                             scripted plugins of the `plugins` line, which are therefore all behind it), installs its
+//                             SetPointerPlugin, prints through ConsoleTestOutput (the PlatformSpecificFPuts seam is wrapped
+//                             and the console text is parsed back into per-test failures and leak reports), asks for
+//                             FinalReport(0) when the run passed, removes the plugin; the plugin's destructor destroys the
+//                             global detector.  Phase-o commands and `separate` are not available in this mode.
 //
 // `realloc <old> <new> <size>` is the tracked realloc of block <old> (private: detector.reallocMemory,
 // global: cpputest_realloc_location on malloc blocks); `realloc-fail <old> <size>` is the same call
@@ -31,6 +38,15 @@
 // it at once.  Declarations are made with the real macros EXPECT_N_LEAKS / IGNORE_ALL_LEAKS_IN_TEST,
 // which go through MemoryLeakWarningPlugin::getFirstPlugin().
 //
+// `plugins <tokens>` gives the INSTALLATION order of the plugins of the registry: `L` is the leak plugin, `1`..`4`
+// are scripted plugins (class ScriptPlugin : TestPlugin) whose pre / post action for test <t> performs the
+// commands `cmd <t> p<k> …` / `cmd <t> q<k> …` (alloc / free / realloc / realloc-fail, and `fail` = a failure added
+// with result.addFailure as MockSupportPlugin does for unmet expectations).  Without the line only the leak plugin
+// is installed.  `cmd <t> o disable <k>` / `enable <k>` finds scripted plugin <k> with the real
+// TestRegistry::getPluginByName and disables / enables it before test <t>.  The leak plugin is a subclass that
+// only notes WHEN its pre and post action run and calls the real ones; the trace prints the plugin actions, `> pre`
+// and `> post` in the order in which they were observed, and `order …` under `> done` repeats that order.
+//
 // Nothing in the harness allocates through operator new between a pre and a post action except
 // the test object itself (created and destroyed inside the window by the runner): all
 // bookkeeping lives in static tables and the trace is printed after the run.
@@ -46,6 +62,7 @@
 #include "CppUTest/MemoryLeakWarningPlugin.h"
 #include "CppUTest/MemoryLeakDetectorMallocMacros.h"
 #include "CppUTest/PlatformSpecificFunctions_c.h"
+#include "CppUTest/CommandLineTestRunner.h"
 
 #undef new
 #undef malloc
@@ -57,9 +74,9 @@
 
 namespace {
 
-enum { MAXT = 48, MAXC = 40, MAXL = 2048, MSG = 12000, NPH = 6 };
+enum { MAXT = 48, MAXC = 40, MAXL = 2048, MSG = 12000, NPH = 6, NSP = 4, MAXPC = 12, LEAK = 9 };
 enum { PH_O = 0, PH_C = 1, PH_S = 2, PH_B = 3, PH_T = 4, PH_D = 5 };
-enum Kind { K_ALLOC, K_FREE, K_EXPECT, K_IGNORE, K_FAIL, K_REALLOC, K_REALLOC_FAIL, K_OVERLOADS, K_SEPARATE, K_PLUGIN2 };
+enum Kind { K_ALLOC, K_FREE, K_EXPECT, K_IGNORE, K_FAIL, K_REALLOC, K_REALLOC_FAIL, K_OVERLOADS, K_SEPARATE, K_PLUGIN2, K_ABLE };
 enum Note { N_SKIPPED, N_OK, N_DUP, N_NOLIVE, N_BADKIND, N_UNEXPECTED };
 enum AKind { A_NEW, A_NEWARR, A_MALLOC };
 
@@ -71,6 +88,9 @@ struct Cmd {
 struct TestDef {
     int label;
     Cmd cmds[NPH][MAXC]; int n[NPH];
+    Cmd pcmds[NSP][2][MAXPC]; int pn[NSP][2];   // scripted plugins: [k-1][0 = pre action, 1 = post action]
+    unsigned char ev[2][NSP + 2]; int nev[2];   // observed order of the pre / post actions (plugin number, LEAK)
+    int nfailAtPre, nfailAtPost; size_t fcAtPost; bool sawPre, sawPost;
     size_t fcBefore, fcAfter;
     int nfail; int nleakfail; int parentFail; long warnN; bool ran; bool separate;
     char msg[MSG];                              // text of the failure added outside the phases
@@ -82,7 +102,10 @@ int g_ntests = 0;
 Block g_blocks[MAXL];                           // private to each process
 int g_cur = -1;
 bool g_inPhase = false;
+bool g_inPlugin = false;
+TestRegistry* g_registry = 0;
 bool g_global = false;
+bool g_runner = false;
 bool g_nooverloads = false;
 pid_t g_casePid = 0;
 MemoryLeakDetector* g_det = 0;
@@ -257,6 +280,59 @@ void run_phase(int t, int ph) {
     }
 }
 
+// ---- other plugins of the chain, and the leak plugin with its actions observed
+int shell_index(UtestShell& test);
+
+class ScriptPlugin : public TestPlugin {
+public:
+    int k_;
+    ScriptPlugin(const char* name, int k) : TestPlugin(name), k_(k) {}
+    void act(int which, UtestShell& test, TestResult& result) {
+        int cur = shell_index(test);
+        if (cur < 0) return;
+        TestDef& d = g_tests[cur];
+        if (d.nev[which] < NSP + 2) d.ev[which][d.nev[which]++] = (unsigned char) k_;
+        g_inPlugin = true;
+        for (int i = 0; i < d.pn[k_ - 1][which]; i++) {
+            Cmd& c = d.pcmds[k_ - 1][which][i];
+            if (is_mem(c.kind)) exec_mem(c);
+            else if (c.kind == K_FAIL) {
+                c.note = N_OK;
+                TestFailure f(&test, FILE_NAME, 1, "failure added by a plugin");
+                result.addFailure(f);
+            }
+        }
+        g_inPlugin = false;
+    }
+    void preTestAction(UtestShell& test, TestResult& result) CPPUTEST_OVERRIDE { act(0, test, result); }
+    void postTestAction(UtestShell& test, TestResult& result) CPPUTEST_OVERRIDE { act(1, test, result); }
+};
+
+class ObsLeakPlugin : public MemoryLeakWarningPlugin {
+public:
+    ObsLeakPlugin(const char* name, MemoryLeakDetector* localDetector) : MemoryLeakWarningPlugin(name, localDetector) {}
+    void preTestAction(UtestShell& test, TestResult& result) CPPUTEST_OVERRIDE {
+        if (g_cur >= 0) {
+            TestDef& d = g_tests[g_cur];
+            if (d.nev[0] < NSP + 2) d.ev[0][d.nev[0]++] = LEAK;
+            d.nfailAtPre = d.nfail; d.sawPre = true;
+        }
+        MemoryLeakWarningPlugin::preTestAction(test, result);
+    }
+    void postTestAction(UtestShell& test, TestResult& result) CPPUTEST_OVERRIDE {
+        MemoryLeakWarningPlugin::postTestAction(test, result);
+        if (g_cur >= 0) {
+            TestDef& d = g_tests[g_cur];
+            if (d.nev[1] < NSP + 2) d.ev[1][d.nev[1]++] = LEAK;
+            d.nfailAtPost = d.nfail; d.fcAtPost = result.getFailureCount(); d.sawPost = true;
+        }
+    }
+};
+
+alignas(16) char g_spStorage[NSP][sizeof(ScriptPlugin)];
+ScriptPlugin* g_sp[NSP];
+const char* const SP_NAMES[NSP] = { "c07s1", "c07s2", "c07s3", "c07s4" };
+
 class ScriptTest : public Utest {
 public:
     int t_;
@@ -275,6 +351,72 @@ public:
 };
 
 ScriptShell g_shells[MAXT];
+char g_names[MAXT][16];
+int shell_index(UtestShell& test) {
+    ScriptShell* s = (ScriptShell*) &test;
+    return (s >= g_shells && s < g_shells + MAXT) ? s->t_ : -1;
+}
+
+// ---- mode runner: console text captured at the PlatformSpecificFPuts seam
+enum { CONSOLE_MAX = 1 << 20 };
+char g_console[CONSOLE_MAX];
+size_t g_consoleLen = 0;
+void (*g_realFPuts)(const char*, PlatformSpecificFile) = 0;
+void capture_fputs(const char* s, PlatformSpecificFile f) {
+    if (f != PlatformSpecificStdOut) { g_realFPuts(s, f); return; }
+    size_t n = strlen(s);
+    if (g_consoleLen + n + 1 < CONSOLE_MAX) { memcpy(g_console + g_consoleLen, s, n); g_consoleLen += n; g_console[g_consoleLen] = 0; }
+}
+
+// the console text of a -v run, cut into per-test segments; fills the same fields RecOutput fills in the other modes
+const char* parse_console() {
+    const char* starts[MAXT + 1];
+    const char* pos = g_console;
+    for (int i = 0; i < g_ntests; i++) {
+        char marker[40]; snprintf(marker, sizeof marker, "TEST(c07, %s)", g_names[i]);
+        const char* p = pos; starts[i] = 0;
+        while ((p = strstr(p, marker)) != 0) {
+            if (p - g_console >= 11 && strncmp(p - 11, "Failure in ", 11) == 0) { p++; continue; }
+            starts[i] = p; pos = p + 1; break;
+        }
+    }
+    const char* summary = 0;
+    for (const char* q = g_console; (q = strstr(q, "\nOK (")) != 0; q++) summary = q;
+    for (const char* q = g_console; (q = strstr(q, "\nErrors (")) != 0; q++) if (!summary || q > summary) summary = q;
+    const char* endAll = summary ? summary : g_console + g_consoleLen;
+    size_t cum = 0;
+    for (int i = 0; i < g_ntests; i++) {
+        TestDef& d = g_tests[i];
+        if (!starts[i]) continue;
+        const char* end = endAll;
+        for (int j = i + 1; j < g_ntests; j++) if (starts[j]) { end = starts[j]; break; }
+        d.ran = true;
+        for (const char* f = starts[i]; (f = strstr(f, "error: Failure in TEST(")) != 0 && f < end; f++) {
+            d.nfail++;
+            const char* next = strstr(f + 1, "error: Failure in TEST(");
+            const char* fend = (next && next < end) ? next : end;
+            const char* leak = strstr(f, "Memory leak(s) found.");
+            const char* none = strstr(f, "No memory leaks were detected.");
+            if ((leak && leak < fend) || (none && none < fend)) {
+                d.nleakfail++;
+                size_t n = (size_t) (fend - f); if (n >= MSG) n = MSG - 1;
+                memcpy(d.msg, f, n); d.msg[n] = 0;
+            }
+        }
+        cum += (size_t) d.nfail;
+        d.nfailAtPre = 0; d.nfailAtPost = d.nfail; d.fcAtPost = cum; d.fcAfter = cum; d.sawPre = d.sawPost = true;
+        // the leak plugin is the one the runner installed last: its pre action first, its post action last
+        for (int e = d.nev[0]; e > 0; e--) d.ev[0][e] = d.ev[0][e - 1];
+        d.ev[0][0] = LEAK; d.nev[0]++;
+        d.ev[1][d.nev[1]++] = LEAK;
+    }
+    if (!summary) return "";
+    const char* fin = strstr(summary + 1, " ms)");
+    if (!fin) return "";
+    fin += 4;
+    while (*fin == '\n' || *fin == ' ') fin++;
+    return fin;
+}
 
 class RecOutput : public TestOutput {
 public:
@@ -298,6 +440,10 @@ public:
             }
             else if (c.kind == K_SEPARATE) c.note = N_OK;
             else if (c.kind == K_PLUGIN2) exec_plugin2(c);
+            else if (c.kind == K_ABLE && g_registry) {
+                TestPlugin* p = (c.label >= 1 && c.label <= NSP) ? g_registry->getPluginByName(SP_NAMES[c.label - 1]) : 0;
+                if (p) { if (c.arg) p->enable(); else p->disable(); c.note = N_OK; }
+            }
         }
         d.fcBefore = g_result->getFailureCount();
     }
@@ -315,7 +461,7 @@ public:
             return;
         }
         d.nfail++;
-        if (!g_inPhase) {
+        if (!g_inPhase && !g_inPlugin) {
             d.nleakfail++;
             size_t n = strlen(m); if (n >= MSG) n = MSG - 1;
             memcpy(d.msg, m, n); d.msg[n] = 0;
@@ -366,8 +512,8 @@ void emit_report(const char* what, const char* text) {
 
 const char* phase_name(int ph) { return ph == PH_O ? "o" : ph == PH_C ? "c" : ph == PH_S ? "s" : ph == PH_B ? "b" : ph == PH_T ? "t" : "d"; }
 
-void emit_cmd(int ph, const Cmd& c) {
-    const char* p = phase_name(ph);
+void emit_cmd(int ph, const Cmd& c, const char* pname = 0) {
+    const char* p = pname ? pname : phase_name(ph);
     switch (c.kind) {
     case K_ALLOC: vh::emit("> cmd %s alloc %d %lu", p, c.label, (unsigned long) c.arg); break;
     case K_FREE: vh::emit("> cmd %s free %d", p, c.label); break;
@@ -379,6 +525,7 @@ void emit_cmd(int ph, const Cmd& c) {
     case K_OVERLOADS: vh::emit("> cmd %s overloads %s", p, c.arg ? "on" : "off"); break;
     case K_SEPARATE: vh::emit("> cmd %s separate", p); break;
     case K_PLUGIN2: vh::emit("> cmd %s plugin2 %s", p, c.arg ? "keep" : "destroy"); break;
+    case K_ABLE: vh::emit("> cmd %s %s %d", p, c.arg ? "enable" : "disable", c.label); break;
     }
     switch (c.note) {
     case N_SKIPPED: vh::emit("skipped"); break;
@@ -409,6 +556,7 @@ int phase_of(const std::string& s) {
 
 void run_case(const vh::Case& c) {
     bool final_report = false; size_t final_arg = 0; bool destroy = false;
+    std::vector<int> install;                       // installation order: LEAK or 1..NSP
     g_casePid = getpid();
     g_tests = (TestDef*) mmap(0, sizeof(TestDef) * MAXT, PROT_READ | PROT_WRITE, MAP_SHARED | MAP_ANONYMOUS, -1, 0);
     if (g_tests == (TestDef*) MAP_FAILED) { vh::emit("harness-error mmap"); return; }
@@ -418,16 +566,30 @@ void run_case(const vh::Case& c) {
     for (size_t i = 0; i < c.ops.size(); i++) {
         const vh::Words& w = c.ops[i];
         if (w[0] == "mode" && w.size() >= 2) {
-            g_global = w[1] == "global";
+            g_runner = w[1] == "runner";
+            g_global = w[1] == "global" || g_runner;
             g_nooverloads = !g_global && w.size() >= 3 && w[2] == "nooverloads";
         }
         else if (w[0] == "test" && w.size() >= 2) declare_test((int) vh::to_u64(w[1]));
+        else if (w[0] == "plugins" && install.empty()) {
+            for (size_t k = 1; k < w.size(); k++) {
+                int v = w[k] == "L" ? LEAK : (w[k].size() == 1 && w[k][0] >= '1' && w[k][0] <= '0' + NSP) ? w[k][0] - '0' : 0;
+                if (v && std::find(install.begin(), install.end(), v) == install.end()) install.push_back(v);
+            }
+        }
         else if (w[0] == "final") { final_report = true; final_arg = w.size() >= 2 ? (size_t) vh::to_u64(w[1]) : 0; }   // private mode only (see below)
         else if (w[0] == "destroy") destroy = true;                                                                // global mode only
         else if (w[0] == "cmd" && w.size() >= 4) {         // cmd <test> <phase> <kind> [args]
             int t = declare_test((int) vh::to_u64(w[1]));
             int ph = phase_of(w[2]);
-            if (t < 0 || ph < 0 || g_tests[t].n[ph] >= MAXC) continue;
+            int pk = 0, pwhich = 0;                  // p<k> / q<k>: pre / post action of scripted plugin k
+            if (ph < 0 && w[2].size() == 2 && (w[2][0] == 'p' || w[2][0] == 'q') && w[2][1] >= '1' && w[2][1] <= '0' + NSP) {
+                pk = w[2][1] - '0'; pwhich = w[2][0] == 'q' ? 1 : 0;
+            }
+            if (t < 0) continue;
+            if (g_runner && (ph == PH_O)) continue;
+            if (pk) { if (g_tests[t].pn[pk - 1][pwhich] >= MAXPC) continue; }
+            else if (ph < 0 || g_tests[t].n[ph] >= MAXC) continue;
             Cmd cm; cm.kind = -1; cm.label = 0; cm.label2 = 0; cm.arg = 0; cm.akind = A_NEW; cm.note = N_SKIPPED; cm.num = 0;
             if (w[3] == "alloc" && w.size() >= 6) {
                 cm.kind = K_ALLOC; cm.label = (int) (vh::to_u64(w[4]) % MAXL); cm.arg = (size_t) (vh::to_u64(w[5]) % 4096);
@@ -447,26 +609,76 @@ void run_case(const vh::Case& c) {
             else if (w[3] == "overloads" && w.size() >= 5 && ph == PH_O) { cm.kind = K_OVERLOADS; cm.arg = w[4] == "on" ? 1 : 0; }
             else if (w[3] == "separate" && ph == PH_O) { cm.kind = K_SEPARATE; g_tests[t].separate = true; }
             else if (w[3] == "plugin2" && w.size() >= 5 && ph != PH_C && ph != PH_D) { cm.kind = K_PLUGIN2; cm.arg = w[4] == "keep" ? 1 : 0; }
+            else if ((w[3] == "disable" || w[3] == "enable") && w.size() >= 5 && ph == PH_O) {
+                cm.kind = K_ABLE; cm.arg = w[3] == "enable" ? 1 : 0; cm.label = (int) (vh::to_u64(w[4]) % 10);
+            }
+            if (pk) {
+                if (is_mem(cm.kind) || cm.kind == K_FAIL) g_tests[t].pcmds[pk - 1][pwhich][g_tests[t].pn[pk - 1][pwhich]++] = cm;
+                continue;
+            }
             if (cm.kind >= 0) g_tests[t].cmds[ph][g_tests[t].n[ph]++] = cm;
         }
     }
 
-    // ---- the real objects: ONE plugin per process (firstPlugin_ is never cleared)
     RecLeakFailure leakFailure;
     ArenaAllocator arenaAllocator;
     g_alloc = &arenaAllocator;
+    MemoryLeakWarningPlugin* plugin = 0;
+    RecOutput* output = 0; TestResult* result = 0; TestRegistry* registry = 0;
+    std::string finalText;
+    int runnerResult = 0;
+    if (g_runner) {
+        // ---- the real runner: it owns the leak plugin, the output and the result
+        install.erase(std::remove(install.begin(), install.end(), (int) LEAK), install.end());
+        registry = TestRegistry::getCurrentRegistry();
+        g_registry = registry;
+        for (size_t k = 0; k < install.size(); k++) {
+            int j = install[k] - 1;
+            g_sp[j] = ::new ((void*) g_spStorage[j]) ScriptPlugin(SP_NAMES[j], install[k]);
+            registry->installPlugin(g_sp[j]);
+        }
+        install.push_back(LEAK);
+        for (int i = g_ntests - 1; i >= 0; i--) {
+            g_shells[i].t_ = i;
+            snprintf(g_names[i], sizeof g_names[i], "t%d", g_tests[i].label);
+            g_shells[i].setTestName(g_names[i]);
+            registry->addTest(&g_shells[i]);
+        }
+        g_det = MemoryLeakWarningPlugin::getGlobalDetector();
+        g_otherDetector = new MemoryLeakDetector(&leakFailure);
+        g_realRealloc = PlatformSpecificRealloc;
+        PlatformSpecificRealloc = wrapped_realloc;
+        g_realFPuts = PlatformSpecificFPuts;
+        PlatformSpecificFPuts = capture_fputs;
+        const char* av[] = { "h_c07", "-v" };
+        runnerResult = CommandLineTestRunner::RunAllTests(2, av);
+        PlatformSpecificFPuts = g_realFPuts;
+        PlatformSpecificRealloc = g_realRealloc;
+        finalText = parse_console();
+        final_report = false; destroy = false;
+    }
+    else {
+    // ---- the real objects: ONE plugin per process (firstPlugin_ is never cleared)
     MemoryLeakDetector* privateDetector = 0;
     if (!g_global) privateDetector = new MemoryLeakDetector(&leakFailure);
-    MemoryLeakWarningPlugin* plugin = g_global ? new MemoryLeakWarningPlugin("c07plugin")
-                                               : new MemoryLeakWarningPlugin("c07plugin", privateDetector);
+    plugin = new ObsLeakPlugin("c07plugin", g_global ? 0 : privateDetector);
     g_det = plugin->getMemoryLeakDetector();
     g_otherDetector = new MemoryLeakDetector(&leakFailure);      // for the plugin objects constructed later
 
-    RecOutput* output = new RecOutput;
-    TestResult* result = new TestResult(*output);
+    output = new RecOutput;
+    result = new TestResult(*output);
     g_result = result;
-    TestRegistry* registry = new TestRegistry;
-    registry->installPlugin(plugin);
+    registry = new TestRegistry;
+    g_registry = registry;
+    if (std::find(install.begin(), install.end(), (int) LEAK) == install.end()) install.push_back(LEAK);
+    for (size_t k = 0; k < install.size(); k++) {
+        if (install[k] == LEAK) registry->installPlugin(plugin);
+        else {
+            int j = install[k] - 1;
+            g_sp[j] = ::new ((void*) g_spStorage[j]) ScriptPlugin(SP_NAMES[j], install[k]);
+            registry->installPlugin(g_sp[j]);
+        }
+    }
     for (int i = g_ntests - 1; i >= 0; i--) {
         g_shells[i].t_ = i;
         if (g_tests[i].separate) g_shells[i].setRunInSeperateProcess();
@@ -481,27 +693,67 @@ void run_case(const vh::Case& c) {
     g_cur = -1;
 
     if (g_global) final_report = false;     // the global table also holds the harness' own objects
-    std::string finalText;
     if (final_report) finalText = plugin->FinalReport(final_arg);
 
+    }
+
     // ---- trace, in script order
-    vh::emit("> mode %s%s", g_global ? "global" : "private", g_nooverloads ? " nooverloads" : "");
+    vh::emit("> mode %s%s", g_runner ? "runner" : g_global ? "global" : "private", g_nooverloads ? " nooverloads" : "");
+    if (install.size() > 1) {
+        std::string l = "> plugins";
+        for (size_t k = 0; k < install.size(); k++) l += install[k] == LEAK ? std::string(" L") : " " + std::to_string(install[k]);
+        vh::emit("%s", l.c_str());
+    }
     for (int t = 0; t < g_ntests; t++) {
         TestDef& d = g_tests[t];
         vh::emit("> test %d", d.label);
         if (!d.ran) { vh::emit("notrun"); continue; }
         for (int i = 0; i < d.n[PH_O]; i++) emit_cmd(PH_O, d.cmds[PH_O][i]);
-        vh::emit("> pre");
+        char pname[4];
+        std::string order = "order";
+        for (int e = 0; e < d.nev[0]; e++) {          // pre actions, in the order observed
+            if (d.ev[0][e] == LEAK) {
+                vh::emit("> pre");
+                if (d.nfailAtPre) vh::emit("prefail %d", d.nfailAtPre);
+                order += " L";
+                continue;
+            }
+            int k = d.ev[0][e];
+            snprintf(pname, sizeof pname, "p%d", k); order += std::string(" ") + pname;
+            for (int i = 0; i < d.pn[k - 1][0]; i++) emit_cmd(0, d.pcmds[k - 1][0][i], pname);
+        }
         for (int ph = PH_C; ph <= PH_D; ph++) for (int i = 0; i < d.n[ph]; i++) emit_cmd(ph, d.cmds[ph][i]);
-        vh::emit("> post");
-        vh::emit("failures %d", d.nfail);
-        if (d.nleakfail == 1) emit_report("leakfail", d.msg);
-        else if (d.nleakfail > 1) vh::emit("leakfail-many %d", d.nleakfail);
-        if (d.warnN >= 0) vh::emit("warn %ld", d.warnN);
+        order += " /";
+        for (int e = 0; e < d.nev[1]; e++) {          // post actions, in the order observed
+            if (d.ev[1][e] == LEAK) {
+                vh::emit("> post");
+                vh::emit("failures %d", d.nfailAtPost - d.nfailAtPre);
+                if (d.nleakfail == 1) emit_report("leakfail", d.msg);
+                else if (d.nleakfail > 1) vh::emit("leakfail-many %d", d.nleakfail);
+                if (d.warnN >= 0) vh::emit("warn %ld", d.warnN);
+                vh::emit("fc %lu", (unsigned long) d.fcAtPost);
+                order += " L";
+                continue;
+            }
+            int k = d.ev[1][e];
+            snprintf(pname, sizeof pname, "q%d", k); order += std::string(" ") + pname;
+            for (int i = 0; i < d.pn[k - 1][1]; i++) emit_cmd(0, d.pcmds[k - 1][1][i], pname);
+        }
+        vh::emit("> done");
+        vh::emit("%s", order.c_str());
         if (d.separate) vh::emit("parentfail %d", d.parentFail);
         vh::emit("fc %lu", (unsigned long) d.fcAfter);
     }
     if (final_report) { vh::emit("> final %lu", (unsigned long) final_arg); emit_report("final", finalText.c_str()); }
+    if (g_runner) {
+        vh::emit("> runnerend");
+        vh::emit("result %d", runnerResult != 0 ? 1 : 0);
+        if (runnerResult != 0 && finalText.empty()) vh::emit("final skipped");
+        else emit_report("final", finalText.c_str());
+        if (leakFailure.count) vh::emit("detector-misuse %d", leakFailure.count);
+        fflush(stdout);
+        return;                      // the runner has destroyed the global detector: nothing is given back
+    }
     if (leakFailure.count) vh::emit("detector-misuse %d", leakFailure.count);
     fflush(stdout);
 
